@@ -398,6 +398,7 @@ From NV Require Import Scalar.Ops Model.Common Model.Basis Model.Knots Model.Kno
 Local Open Scope nat_scope.
 
 
+
 (* [G] helpers.knot_insertion_kv; wf: span < len(knotvector) *)
 Theorem C04_gen_knot_insertion_kv_R : forall (U : list R) (u : R) (span r : nat),
   span < length U ->
